@@ -29,10 +29,10 @@ NSIG = 16
 
 
 def bounds(tier):
-    return ({"sig_params_per_kind": 2, "positionals": 4, "keywords": 3, "scope_depth": 3, "roles": len(FN.ROLE_NAMES)}
+    return ({"sig_params_per_kind": 2, "positionals": 4, "keywords": 3, "scope_depth": 3, "roles": len(FN.ROLE_NAMES), "scope_depth4_roles": len(FN.QUICK_ROLES)}
             if tier == "thorough" else
             {"sig_params_per_kind": 1, "positionals": 3, "keywords": 2, "scope_depth": 3, "roles": len(FN.QUICK_ROLES),
-             "scope_depth2_roles": len(FN.ROLE_NAMES)})
+             "scope_depth2_roles": len(FN.ROLE_NAMES), "scope_depth4_roles": len(FN.DEEP_ROLES)})
 
 
 def plan(tier, seed):
@@ -41,10 +41,12 @@ def plan(tier, seed):
         shards += [("sig", 1, 3, 2, k, NSIG) for k in range(NSIG)]
         shards += [("scope", 2, "full", 0, 1), ("scope", 1, "full", 0, 1)]
         shards += [("scope", 3, "quick", k, 16) for k in range(16)]
+        shards += [("scope", 4, "deep", k, 16) for k in range(16)]
     else:
         shards += [("sig", 2, 4, 3, k, 64) for k in range(64)]
         shards += [("scope", 2, "full", 0, 1), ("scope", 1, "full", 0, 1)]
         shards += [("scope", 3, "full", k, 32) for k in range(32)]
+        shards += [("scope", 4, "quick", k, 64) for k in range(64)]
     return shards
 
 
@@ -90,7 +92,7 @@ def run_shard(shard):
                 check_one(res, "sig", src, has_res, "**kw" in params)
     else:
         _, depth, rl, k, n = shard
-        roles = FN.ROLE_NAMES if rl == "full" else FN.QUICK_ROLES
+        roles = FN.ROLE_NAMES if rl == "full" else (FN.DEEP_ROLES if rl == "deep" else FN.QUICK_ROLES)
         for i, src in enumerate(FN.scope_programs(depth, roles)):
             if i % n == k:
                 check_one(res, f"scope{depth}", src)
